@@ -242,6 +242,9 @@ func (m *Machine) nondetIntrinsic(name string, args []Val) (Val, bool) {
 	case "VerifAllocEnd":
 		m.allocLimit = 0
 		return nil, true
+	case "VerifFaultReadFile":
+		m.faultRead = m.cInt(args[0], name)
+		return nil, true
 	case "VerifFaultOpen":
 		m.faultOpen = m.cInt(args[0], name)
 		return nil, true
